@@ -415,9 +415,15 @@ func buildCases(leaves []leaf, thorough bool) []kase {
 			}
 		}
 		// --- two cmdenv sources for one setting: the first-listed (specific) one wins within the same channel
-		if len(l.Tags) == 2 {
+		// (README: the setting-specific key wins over the shared REFINERY_HONEYCOMB_API_KEY; which of the two is
+		// the specific one is decided here by name, not by the order of the cmdenv tag under test)
+		if len(l.Tags) == 2 && (l.Tags[0] == "HoneycombAPIKey") != (l.Tags[1] == "HoneycombAPIKey") {
+			specific, generic := l.Tags[0], l.Tags[1]
+			if specific == "HoneycombAPIKey" {
+				specific, generic = generic, specific
+			}
 			for _, ch := range []string{"flag", "env"} {
-				add(kase{Kind: "cross", Mode: ch, Sources: []source{{Kind: ch, Tag: l.Tags[0], V: vs[0]}, {Kind: ch, Tag: l.Tags[1], V: vs[1]}}, Winner: ch + ":" + l.Tags[0]})
+				add(kase{Kind: "cross", Mode: ch, Sources: []source{{Kind: ch, Tag: specific, V: vs[0]}, {Kind: ch, Tag: generic, V: vs[1]}}, Winner: ch + ":" + specific})
 			}
 		}
 		// --- ${VAR} expansion in string-valued settings
@@ -599,6 +605,9 @@ func oneLine(err error) string {
 		return ""
 	}
 	s := strings.Join(strings.Fields(err.Error()), " ")
+	if d := os.Getenv("C29_CASE_DIR"); d != "" {
+		s = strings.ReplaceAll(s, d, "$DIR")
+	}
 	s = strings.ReplaceAll(s, os.Getenv("VERIF_WORK"), "$WORK")
 	if len(s) > 300 {
 		s = s[:300] + "…"
@@ -988,6 +997,7 @@ func setup(dir string, thorough bool) *worker {
 		ev.Harness("%v", err)
 	}
 	w := &worker{dir: dir, base: map[string]string{}}
+	os.Setenv("C29_CASE_DIR", dir) // scrubbed from messages so that results do not depend on which worker ran a case
 	md, err := config.LoadConfigMetadata()
 	if err != nil {
 		ev.Harness("metadata: %v", err)
@@ -1116,6 +1126,7 @@ func main() {
 		}
 	}
 	kinds := map[string]int{}
+	outcomes := map[string]int{}
 	skipped := map[string]string{}
 	var mu sync.Mutex
 	_ = mu
@@ -1123,6 +1134,7 @@ func main() {
 		k := w.cases[i]
 		kinds[k.Kind]++
 		r.Distinct("distinct_outcomes", res.Outcome)
+		outcomes[strings.SplitN(res.Outcome, ":", 3)[0]+":"+lastPart(res.Outcome)]++
 		if res.Nontrivial != "" && res.Skip == "" {
 			r.Distinct("distinct_nontrivial", res.Nontrivial)
 		}
@@ -1162,6 +1174,7 @@ func main() {
 	r.Set("settings_total", len(all))
 	r.Set("settings_covered", len(covered))
 	r.Set("cases_by_kind", kinds)
+	r.Set("outcome_counts", outcomes)
 	r.Set("rule", "effective(setting) = value of the highest-priority source present among flag > env var > later file > earlier file > default; ${VAR} in a string-valued setting -> value of VAR (unchanged when unset); a value validation refuses literally is refused by every route that would make it the used value")
 	r.Set("bounds", map[string]any{"files": 2, "values_per_setting": 4, "formats": ev.Pick(r, "yaml", "yaml,toml,json"), "expansion_modes": ev.Pick(r, "set,embedded,twice,unset", "set,embedded,twice,unset,empty"), "workers": nWorkers})
 	r.Assume("precedence follows the statement (flag > env); README.md states the opposite order for flag vs env, config/cmdenv.go documents flag > env")
@@ -1172,6 +1185,11 @@ func main() {
 	r.Assume("'validated = used' is checked in the direction: a value that validation refuses literally must be refused whenever another route (expansion, flag, env) would make it the used value; an invalid file value that is overridden by a valid flag/env value and still rejected is not flagged")
 	r.Assume("NewConfig is called without a version string (as the repository's own tests do), so deprecated settings load with a warning; zero-valued file entries for settings with non-zero defaults are outside the alphabet (except explicit false for booleans)")
 	r.Finish()
+}
+
+func lastPart(s string) string {
+	p := strings.Split(s, ":")
+	return p[len(p)-1]
 }
 
 func replayArg() string {
